@@ -104,8 +104,10 @@ func TestC16Calls(t *testing.T) {
 		var res vrun.Result
 		ok, dump := vrun.Watchdog(120*time.Second, func() { res = run(c, s) })
 		if !ok {
-			res = vrun.Inconcl("wall-clock watchdog fired")
-			res.Witness = map[string]any{"dump_head": dump[:min(len(dump), 5000)]}
+			res = vrun.WatchdogVerdict("callers never returned")
+			if res.Verdict == vrun.Inconclusive {
+				res.Witness = map[string]any{"dump_head": dump[:min(len(dump), 5000)]}
+			}
 		}
 		res.Desc = s
 		return res
